@@ -506,6 +506,23 @@ func checkMemoCompleteness(c *Ctx) {
 		return
 	}
 	for _, a := range accs {
+		// the entry the accessor itself installs must carry the freshly generated name under the very field it returns on a hit
+		for _, p := range puts {
+			if p.fd != a.fd {
+				continue
+			}
+			own := len(p.fields) == 1 && p.fields[a.field]
+			var got []string
+			for f := range p.fields {
+				got = append(got, f)
+			}
+			sort.Strings(got)
+			c.Check("R1.1", fmt.Sprintf("%s installs its generated name under the field it reads (%s)", a.fd.Name.Name, a.field), p.pos, own,
+				fmt.Sprintf("%s returns e.%s on a hit but stores the name it generates under %v: the other operator that reads that field reuses this operator's non-terminal for the same sub-expression", a.fd.Name.Name, a.field, got),
+				"start = [\"+\" | \"-\"] NUM (\"+\" | \"-\") NUM;")
+		}
+	}
+	for _, a := range accs {
 		c.Analysed(funcKey(sp, a.fd))
 		for _, p := range puts {
 			if p.table != a.table {
